@@ -129,6 +129,24 @@ static int next(sqfs_dir_iterator_t *base, sqfs_dir_entry_t **out)
 				sqfs_free(ent);
 				continue;
 			}
+
+			/* tar cannot express sockets. Drop them here, below the
+			   hard link filter, so it never hands out a link to a
+			   member that is not in the archive. */
+			if (S_ISSOCK(ent->mode)) {
+				fprintf(stderr, "WARNING: %s: unsupported "
+					"file type\n", ent->name);
+				if (dont_skip) {
+					fputs("Not allowed to skip files, "
+					      "aborting!\n", stderr);
+					sqfs_free(ent);
+					it->state = SQFS_ERROR_UNSUPPORTED;
+					return it->state;
+				}
+				fprintf(stderr, "Skipping %s\n", ent->name);
+				sqfs_free(ent);
+				continue;
+			}
 			break;
 		}
 
